@@ -2,7 +2,7 @@
 import io
 from util import hb, outcome
 import isoutil as iu
-from props.framing import data_blocks
+from props.framing import data_blocks, in_stream
 
 ID = 'C06'
 RULE = ('lists of well-formed messages (1..300 records so that files span many blocks, heterogeneous shapes incl. PDS, ICC, typed '
@@ -91,7 +91,7 @@ class Inst:
             data = write_file(self.msgs, spec['codec'], spec['blocked'], None)
             cls = mciipm.IpmReader if spec['role'] == 'reader' else mciipm.VbsReader
             kw = {'encoding': spec['codec']} if spec['role'] == 'reader' else {}
-            self.obj = cls(io.BytesIO(data), blocked=spec['blocked'], **kw)
+            self.obj = cls(in_stream(data), blocked=spec['blocked'], **kw)
             self.it = iter(self.obj)
 
     def step(self):
@@ -120,7 +120,7 @@ def impl(case):
             f = bytes.fromhex(res['file'][3:])
 
             def rd():
-                return [iu.dict_text(d) for d in mciipm.IpmReader(io.BytesIO(f), encoding=case['codec'], blocked=case['blocked'], iso_config=case['cfg'])]
+                return [iu.dict_text(d) for d in mciipm.IpmReader(in_stream(f), encoding=case['codec'], blocked=case['blocked'], iso_config=case['cfg'])]
             res['read'] = outcome(rd, lambda l: '/'.join(l) or '-')
         return res
     before = (mciipm.VbsReader.record_number, mciipm.VbsReader.last_record, mciipm.IpmReader.record_number)
